@@ -245,6 +245,19 @@ func (s *SwapService) VerifLockSwap(swapId, channelId string) error {
 	return s.lockSwap(swapId, channelId, fsm)
 }
 
+// VerifLockFresh performs the first half of SwapOut / SwapIn: it builds the state machine the way the
+// entry point does (no swap data yet) and registers it with lockSwap, then returns before the first
+// event is sent -- the point at which a concurrently running request handler may be scheduled.
+func (s *SwapService) VerifLockFresh(channelId, initiator, peer string, swapOut bool) (string, error) {
+	var fsm *SwapStateMachine
+	if swapOut {
+		fsm = newSwapOutSenderFSM(s.swapServices, initiator, peer)
+	} else {
+		fsm = newSwapInSenderFSM(s.swapServices, initiator, peer)
+	}
+	return fsm.SwapId.String(), s.lockSwap(fsm.SwapId.String(), channelId, fsm)
+}
+
 // VerifEventNames maps the Go constant names of the events to their string values.
 func VerifEventNames() map[string]string {
 	return map[string]string{
